@@ -10,19 +10,19 @@ Definition B (ret : Z) (acts : list action) : behav := mkBeh ret acts.
 
 (* 1. qb_ipcs_disconnect from inside msg_process *)
 Definition wit_msg_disconnect : list op :=
-  [OBeh KMsg (B 0 [ADisc TSelf]); OConn 0; OReq 0 true; OReq 0 true; OTurn 0 false].
+  [OBeh KMsg (B 0 [ADisc TSelf]); OConn 0 true; OReq 0 true; OReq 0 true; OTurn 0 false].
 (* 2. the application's reference outlives the peer; a second qb_ipcs_disconnect *)
 Definition wit_second_disconnect : list op :=
-  [OConn 0; OApp (ARef (TConn 0)); OHup 0 false; OTurn 0 false; OApp (ADisc (TConn 0)); OApp (AUnref (TConn 0))].
+  [OConn 0 true; OApp (ARef (TConn 0)); OHup 0 false; OTurn 0 false; OApp (ADisc (TConn 0)); OApp (AUnref (TConn 0))].
 (* 3. connection_closed asked for a re-run; qb_ipcs_destroy before the job runs *)
 Definition wit_rerun_destroy : list op :=
-  [OBeh KClosed (B 1 []); OConn 0; OHup 0 false; OTurn 0 false; OApp ADestroy; OJobs].
+  [OBeh KClosed (B 1 []); OConn 0 true; OHup 0 false; OTurn 0 false; OApp ADestroy; OJobs].
 (* 4. qb_ipcs_destroy while connection_closed of the first connection disconnects the next one *)
 Definition wit_destroy_walk : list op :=
-  [OConn 0; OConn 1; OBeh KClosed (B 0 [ADisc (TConn 0)]); OApp ADestroy].
+  [OConn 0 true; OConn 1 true; OBeh KClosed (B 0 [ADisc (TConn 0)]); OApp ADestroy].
 (* 5. rate limit while a connection disconnected inside connection_created is still on the list *)
 Definition wit_rate_released : list op :=
-  [OBeh KCreated (B 0 [ARef TSelf; ADisc TSelf; ARate 3]); OConn 0].
+  [OBeh KCreated (B 0 [ARef TSelf; ADisc TSelf; ARate 3]); OConn 0 true].
 
 Lemma orig_refuted :
   (forall shm, err_of (run shm false 6 wit_msg_disconnect world0) = Some (UseAfterFree 0)) /\
